@@ -120,6 +120,10 @@ type World struct {
 	spentBack     map[string]bool // swap id -> a coop/csv spend of the opening output was broadcast
 	curSwap       string          // swap id the scenario is driving
 	offerSent     map[string]bool // swap id -> the node\'s request/agreement went out
+	anchorSeen    map[string]uint32
+	anchorNow     map[string]bool
+	anchorMoved   map[string]bool
+	paidNoAnchor  map[string]bool
 	cancelTried   map[string]bool // swap id -> the swap went through State_SendCancel
 	btcOn, lbtcOn bool
 	policyPath    string
@@ -153,7 +157,8 @@ func newWorld(cfg WorldCfg) *World {
 	if err != nil {
 		panic(err)
 	}
-	w := &World{dir: dir, faults: map[string][]string{}, idNames: map[string]string{}, secrets: map[string]string{}, revealed: map[string]bool{}, openings: map[string]int{}, spentBack: map[string]bool{}, offerSent: map[string]bool{}, cancelTried: map[string]bool{}}
+	w := &World{dir: dir, faults: map[string][]string{}, idNames: map[string]string{}, secrets: map[string]string{}, revealed: map[string]bool{}, openings: map[string]int{}, spentBack: map[string]bool{}, offerSent: map[string]bool{}, cancelTried: map[string]bool{},
+		anchorSeen: map[string]uint32{}, anchorNow: map[string]bool{}, anchorMoved: map[string]bool{}, paidNoAnchor: map[string]bool{}}
 	w.pol = &simPolicy{w: w, acceptAll: cfg.AcceptAll, allow: map[string]bool{}, susp: map[string]bool{}, minMsat: cfg.MinSwapMsat, allowNew: true}
 	for _, p := range cfg.Allowlist {
 		w.pol.allow[p] = true
@@ -428,6 +433,18 @@ func (l *logStore) UpdateData(s *swap.SwapStateMachine) error {
 				}
 			}
 		}
+		// anchor bookkeeping for C13
+		if s.Data.StartingBlockHeightSet {
+			if prev, ok := l.w.anchorSeen[id]; ok && prev != s.Data.StartingBlockHeight {
+				l.w.anchorMoved[id] = true
+			}
+			l.w.anchorSeen[id] = s.Data.StartingBlockHeight
+		} else if _, ok := l.w.anchorSeen[id]; ok {
+			l.w.anchorMoved[id] = true // the flag was cleared again
+		}
+		l.w.anchorNow[id] = s.Data.StartingBlockHeightSet
+		fl["anchormoved"] = b01(l.w.anchorMoved[id])
+		fl["paidnoanchor"] = b01(l.w.paidNoAnchor[id])
 		fl["offersent"] = b01(l.w.offerSent[id])
 		fl["canceltried"] = b01(l.w.cancelTried[id] || string(s.Current) == "State_SendCancel")
 		if string(s.Current) == "State_SendCancel" {
@@ -766,6 +783,9 @@ func (l *simLN) pay(kind, payreq, channel string, maxCltv uint32) (string, error
 		err = errors.New("sim: payment attempt timed out, HTLC still in flight")
 	default:
 		err = errors.New("sim: " + out)
+	}
+	if kind == "claim" && !l.w.anchorNow[inv.swapId] {
+		l.w.paidNoAnchor[inv.swapId] = true
 	}
 	l.w.note(Obs{Kind: "pay", Swap: l.w.name(inv.swapId), A: map[string]string{"kind": kind, "hash": inv.hash[:8], "msat": fmt.Sprint(inv.msat),
 		"chan": channel, "btc": fmt.Sprint(height), "lbtc": fmt.Sprint(lheight), "max": fmt.Sprint(maxCltv), "out": out, "cltv": fmt.Sprint(inv.cltv)}})
